@@ -40,6 +40,10 @@ type LibCase struct {
 	Segs      []int             `json:"segs"` // write sizes for the request stream (cycled; empty = one write)
 	PauseUs   int               `json:"pause_us"`
 	Version   string            `json:"version"` // expected libraryVersion (from /repo/version)
+	// Channel: which of Plugin.Reader / Plugin.Writer the plugin sets explicitly (to its standard
+	// streams): "", "reader", "writer", "both". The documented default for an unset one is the
+	// standard stream, so the conversation must be the same in all four.
+	Channel string `json:"channel,omitempty"`
 }
 
 var versionRe = regexp.MustCompile(`(?m)^const Version = "([^"]+)"`)
@@ -102,7 +106,7 @@ func runLib(c LibCase) (*libObs, error) {
 		return nil, err
 	}
 	defer os.RemoveAll(work)
-	cfg, _ := json.Marshal(map[string]interface{}{"name": c.Name, "generator": c.Generator, "fail": c.Fail, "files": c.Files})
+	cfg, _ := json.Marshal(map[string]interface{}{"name": c.Name, "generator": c.Generator, "fail": c.Fail, "files": c.Files, "channel": c.Channel})
 	cfgPath := filepath.Join(work, "config.json")
 	if err := os.WriteFile(cfgPath, cfg, 0o644); err != nil {
 		return nil, err
@@ -304,6 +308,7 @@ var libMethods = []string{fplab.MethodHandshake, fplab.MethodGenerate, "Plugin:n
 
 func genLibCase(t *rapid.T, version string) LibCase {
 	c := LibCase{Name: rapid.SampledFrom([]string{"p", "zqalfa", "with space", "ünï"}).Draw(t, "name"), Generator: rapid.Bool().Draw(t, "generator"), Version: version}
+	c.Channel = rapid.SampledFrom([]string{"", "", "reader", "writer", "both"}).Draw(t, "channel")
 	if c.Generator {
 		c.Fail = rapid.IntRange(0, 5).Draw(t, "fail") == 0
 		c.Files = map[string][]byte{}
